@@ -39,4 +39,84 @@ for body in bodies:
             if got != body or not d.finished_reading or d.unused_data != extra:
                 verdict(True, "decoding a segmented message did not give back the body and the trailing bytes",
                         input=dict(wire=repr(wire), segmentation=str(seg)), observed=repr((got, d.unused_data, d.finished_reading)), expected=repr((body, extra, True)))
+
+# ---- protocol v3 framing: the real ProtocolThreeDecoder with a recording message handler that may fail at a chosen part; a second
+#      message follows on the same connection. Whatever the segmentation and wherever the handler fails: every part of the first message
+#      is offered to the handler unchanged and in order, the end of the message is recognised (next_read_size 0), nothing is asked for
+#      beyond the current part, and exactly the following bytes are left in unused_data.
+import struct
+from fastbencode import bencode
+if protocol.MESSAGE_VERSION_THREE != b"bzr message 3 (bzr 1.6)\n":
+    verdict(True, "MESSAGE_VERSION_THREE differs from the constant assumed by the specification", observed=repr(protocol.MESSAGE_VERSION_THREE))
+
+
+class Recorder:
+    def __init__(self, fail_at):
+        self.events, self.fail_at, self.errors = [], fail_at, []
+
+    def _ev(self, *e):
+        self.events.append(e)
+        if len(self.events) - 1 == self.fail_at:
+            raise RuntimeError("handler failure injected at event %d" % self.fail_at)
+
+    def headers_received(self, h): self._ev("headers", h)
+    def byte_part_received(self, b): self._ev("byte", b)
+    def bytes_part_received(self, b): self._ev("bytes", b)
+    def structure_part_received(self, s_): self._ev("structure", s_)
+    def end_received(self): self._ev("end")
+    def protocol_error(self, e): self.errors.append(e)
+
+
+def lp(b):
+    return struct.pack("!L", len(b)) + b
+
+
+def v3_message(parts):
+    out, expect = lp(bencode({b"k": b"v"})), [("headers", {b"k": b"v"})]
+    for kind, val in parts:
+        if kind == "byte":
+            out += b"o" + val
+        elif kind == "bytes":
+            out += b"b" + lp(val)
+        else:
+            out += b"s" + lp(bencode(val))
+        expect.append((kind, val))
+    return out + b"e", expect + [("end",)]
+
+
+messages = [[("structure", (b"verb", b"arg"))],
+            [("structure", (b"readv", b"f")), ("bytes", b"0,10")],
+            [("byte", b"S"), ("structure", (b"ok",)), ("bytes", b"body e with b and o"), ("bytes", b"")],
+            [("structure", (b"x",)), ("byte", b"E"), ("structure", (b"err", b"e"))]]
+nexts = [b"", lp(bencode({})) + b"s" + lp(bencode((b"hello",))) + b"e", b"ebzr"]
+for parts in messages:
+    wire1, expect = v3_message(parts)
+    for nxt in nexts:
+        wire = wire1 + nxt
+        for fail_at in [None] + list(range(len(expect))):
+            segs = list(segmentations(len(wire), 1)) + [tuple(range(len(wire) + 1))]
+            for seg in segs:
+                tried += 1
+                h = Recorder(fail_at)
+                d = protocol.ProtocolThreeDecoder(h, expect_version_marker=False)
+                fed = 0
+                for a, b in zip(seg, seg[1:]):
+                    nrs = d.next_read_size()
+                    if fed < len(wire1) and (nrs < 1 or fed + nrs > len(wire1)):
+                        verdict(True, "v3: next_read_size asks for nothing while the message is incomplete, or for bytes beyond its end",
+                                input=dict(wire=repr(wire), fed=fed, handler_fails_at=fail_at), observed=str(nrs), expected="1..%d" % (len(wire1) - fed))
+                    d.accept_bytes(wire[a:b]); fed = b
+                if d.decoding_failed:
+                    verdict(True, "v3: a handler failure made the decoder give up on a well-formed message",
+                            input=dict(wire=repr(wire), segmentation=str(seg)[:80], handler_fails_at=fail_at))
+                if d.next_read_size() != 0 or d.unused_data != nxt:
+                    verdict(True, "v3: the end of the message was not recognised / the bytes of the next message were not left in unused_data",
+                            input=dict(wire=repr(wire), segmentation=str(seg)[:80], handler_fails_at=fail_at),
+                            observed=repr((d.next_read_size(), d.unused_data)), expected=repr((0, nxt)))
+                if [tuple(e) for e in h.events] != expect:
+                    verdict(True, "v3: the parts offered to the message handler are not the parts of the message, unchanged and in order",
+                            input=dict(wire=repr(wire), segmentation=str(seg)[:80], handler_fails_at=fail_at), observed=repr(h.events), expected=repr(expect))
+                if (fail_at is not None) != bool(h.errors):
+                    verdict(True, "v3: a handler failure was not reported through protocol_error (or one was reported without a failure)",
+                            input=dict(wire=repr(wire), handler_fails_at=fail_at), observed=repr(h.errors))
 verdict(False, "no failing segmentation among %d" % tried)
